@@ -15,7 +15,7 @@ RULE = ("Comparisons: for two fixed-point objects of any formats with n_word<=24
         "astype(int)/int()==floor, bool() iff code!=0, raw()==code, uraw()==code mod 2^n_word. Non-trivial = values differing by <=1 LSB of the finer grid (comparisons) or a negative non-integer value (int conversions); "
         "distinct = distinct case keys.")
 ASSUMPTIONS = ['n_word<=24 so every stored value is an exact double', 'plain numbers compared against are exact doubles or python ints']
-EXHAUSTIVE = True
+EXHAUSTIVE = False    # the whole quantifier is not enumerated; complete sub-domains are listed in EXHAUSTIVE_SUBDOMAINS
 EXHAUSTIVE_SUBDOMAINS = {'quick': ['conversions: every code of every format n_word<=8, n_frac -1..n_word+1, 3 creation routes; comparisons: all code pairs of all format pairs n_word<=3'],
                          'thorough': ['conversions as quick (n_word<=9); comparisons: all code pairs of all format pairs n_word<=4']}
 REQUIRED_CLASSES = {'adjacent': 2000, 'equal-across-formats': 300, 'neg-nonint': 1000, 'number-operand': 500, 'array-compare': 300}
